@@ -118,6 +118,27 @@ class NPNum:
     def mod(self, a, b):
         return a % b
 
+    def fmod(self, a, b):
+        """C fmod: remainder with the sign of the dividend: a - b*trunc(a/b)"""
+        def one(x, y):
+            q = x / y
+            return x - y * symx.symint(q if isinstance(q, Sym) else K(q))
+        if isinstance(a, _np.ndarray):
+            bb = _np.broadcast_to(_np.asarray(b, dtype=object), a.shape)
+            out = _np.empty(a.shape, dtype=object)
+            for idx in _np.ndindex(a.shape):
+                out[idx] = one(a[idx], bb[idx])
+            return out
+        return one(a, b)
+
+    def imag(self, a):
+        if isinstance(a, _np.ndarray):
+            out = _np.empty(a.shape, dtype=object)
+            for idx in _np.ndindex(a.shape):
+                out[idx] = getattr(a[idx], 'imag', 0)
+            return out
+        return getattr(a, 'imag', 0)
+
     def eye(self, n):
         return _np.eye(n, dtype=int).astype(object)
 
@@ -138,7 +159,12 @@ class NPNum:
         return K(a).sqrt()
 
     def real(self, a):
-        return a
+        if isinstance(a, _np.ndarray) and a.dtype == object:
+            out = _np.empty(a.shape, dtype=object)
+            for idx in _np.ndindex(a.shape):
+                out[idx] = getattr(a[idx], 'real', a[idx])
+            return out
+        return getattr(a, 'real', a)
 
     def sum(self, a, axis=None):
         if isinstance(a, _np.ndarray) and a.dtype != object:
